@@ -46,6 +46,7 @@ const c07Slack = 150 * time.Millisecond
 
 func init() {
 	register("C07", scnTimed)
+	register("C05", scnTimedStale)
 	executors["timed"] = execTimed
 }
 
@@ -665,4 +666,31 @@ func scnTimed(o *Out, r *Rng, thorough bool) {
 			o.Stat("timed:verdict:" + strings.SplitN(f[1], ":", 2)[0])
 		}
 	}
+}
+
+// C05 in time (Properties/C05b.v): the stale-frame behaviours of the timed
+// scenario on the MBAP transports - floods of foreign transaction ids /
+// protocol ids until well after the deadline, stale frames followed by the
+// own reply - against the timed model: outcome, and a duration that is the
+// deadline itself for the floods.
+func scnTimedStale(o *Out, r *Rng, thorough bool) {
+	var ins []string
+	tmos := []int{150}
+	if thorough {
+		tmos = []int{100, 150, 250}
+	}
+	for _, tmo := range tmos {
+		for _, scheme := range []string{"s:tcp", "l:tcp", "l:udp"} {
+			op := []string{"ReadRegisters", hxi(r.Intn(65000)), hxi(1 + r.Intn(8)), itoa(r.Intn(2))}
+			for _, c := range c07Cases(r, scheme, tmo, op, false) {
+				if c.beh != "flood-foreign-txn" && c.beh != "flood-foreign-proto" && c.beh != "skip-then-reply" {
+					continue
+				}
+				ct, ch := c.tokens()
+				ins = append(ins, strings.Join(append([]string{scheme, "0", itoa(tmo), c.beh, ct, ch}, op...), " "))
+				o.Stat("timed:beh:" + c.beh)
+			}
+		}
+	}
+	o.RunMany("timed", ins)
 }
